@@ -7,6 +7,7 @@ import (
 	"os"
 	"path/filepath"
 	"runtime"
+	"runtime/debug"
 	"time"
 )
 
@@ -84,6 +85,12 @@ type minimiser struct {
 	deadline time.Time // wall clock bounds the *search* only; the result is replayed from the file
 }
 
+// spent: the budget is used up; callers stop building candidates (a clone of a history of
+// tens of thousands of operations is megabytes).
+func (m *minimiser) spent() bool {
+	return m.tried >= m.maxTried || time.Now().After(m.deadline)
+}
+
 func (m *minimiser) ok(c *RunSpec) bool {
 	if m.tried >= m.maxTried || time.Now().After(m.deadline) {
 		return false
@@ -124,7 +131,7 @@ func minimise(spec *RunSpec, class string, pred func(*RunSpec) bool, maxTried in
 		for ci := range cur.Clients {
 			for chunk := len(cur.Clients[ci]) / 2; chunk >= 1; chunk /= 2 {
 				for i := len(cur.Clients[ci]) - chunk; i >= 0; i -= chunk {
-					if len(cur.Clients[ci]) <= 1 && len(cur.Clients) == 1 {
+					if len(cur.Clients[ci]) <= 1 && len(cur.Clients) == 1 || m.spent() {
 						break
 					}
 					if i+chunk > len(cur.Clients[ci]) {
@@ -142,7 +149,13 @@ func minimise(spec *RunSpec, class string, pred func(*RunSpec) bool, maxTried in
 		for ci := range cur.Clients {
 			for oi := range cur.Clients[ci] {
 				o := cur.Clients[ci][oi]
+				if m.spent() {
+					break
+				}
 				try := func(f func(*Op)) {
+					if m.spent() {
+						return
+					}
 					c := cur.clone()
 					f(&c.Clients[ci][oi])
 					if m.ok(c) {
@@ -365,6 +378,9 @@ func executeHistory(spec *RunSpec, st *Stats) *Violation {
 // worker process may carry state left behind by earlier runs when the code under test keeps
 // any at package level), writes the replay file and records the violation.
 func reportViolation(spec *RunSpec, v *Violation, st *Stats, replayDir string, doMin bool) {
+	// workers of the hist engine run with the automatic collector off; minimising (clones of
+	// the run, one per candidate) needs it
+	defer debug.SetGCPercent(debug.SetGCPercent(100))
 	class := v.Class
 	final := spec
 	fv := v
